@@ -16,7 +16,13 @@ for pid in sys.argv[4:]:
     for d in sorted(glob.glob('/verif/seeded/%s-?' % low)):
         m = json.load(open(d + '/meta.json'))
         earlier.append("- %s [files: %s]" % (m.get('summary', '')[:420].replace('\n', ' '), ', '.join(m.get('files_changed', m.get('verified', {}).get('files_changed', [])))[:160]))
-    s += "\n\n%d EARLIER SEEDED CHANGES for this property already exist (written by others). Yours must be DIFFERENT from all of them in mechanism and code site; prefer functions and files none of them touches. This round, prefer, in this order: (1) a bug of omission after a plausible small feature/refactor (a new case added in one place but not in its sibling; a field added to a struct but not to its copy/reset/equality/serialisation); (2) an effect that is SMALL in magnitude (one unit, one rune, one glyph, one entry; a tie broken the other way) rather than gross, and only for a particular combination of API-level options or argument values; (3) latent state: only after a number of uses, a growth/shrink of an internal buffer, or a particular order of calls; (4) integer width / sign / rounding issues that need particular magnitudes; (5) a condition wrong only for a legal-but-unusual shape of a font table or text. The change must still be a plausible maintenance mistake that passes review and the existing tests:\n" % len(earlier)
+    s += "\n\n%d EARLIER SEEDED CHANGES for this property already exist (written by others). Yours must be DIFFERENT from all of them in mechanism and code site; prefer functions and files none of them touches. This round, prefer, in this order: EMPH_START(1) a bug of omission after a plausible small feature/refactor (a new case added in one place but not in its sibling; a field added to a struct but not to its copy/reset/equality/serialisation); (2) an effect that is SMALL in magnitude (one unit, one rune, one glyph, one entry; a tie broken the other way) rather than gross, and only for a particular combination of API-level options or argument values; (3) latent state: only after a number of uses, a growth/shrink of an internal buffer, or a particular order of calls; (4) integer width / sign / rounding issues that need particular magnitudes; (5) a condition wrong only for a legal-but-unusual shape of a font table or text.EMPH_END The change must still be a plausible maintenance mistake that passes review and the existing tests:\n" % len(earlier)
+    import re as _re
+    emph = os.environ.get("SEED_EMPHASIS")
+    if emph:
+        s = _re.sub(r"EMPH_START.*?EMPH_END", emph, s, flags=_re.S)
+    else:
+        s = s.replace("EMPH_START", "").replace("EMPH_END", "")
     s += "\n".join(earlier)
     s += "\n\nName your two changes %s and %s (directories OUTDIR/%s and OUTDIR/%s).\n".replace('OUTDIR', '/tmp/%sout-%s' % (tag, low)) % (X, Y, X, Y)
     open('/tmp/%s-prompt-%s.txt' % (tag, low), 'w').write(s)
